@@ -131,6 +131,10 @@ Proof.
   - (* BConst *) induction bs; simpl; constructor; auto. reflexivity.
   - (* BFirstTick *) destruct bs as [|e r]; simpl; constructor; [reflexivity|].
     induction r; simpl; constructor; auto. reflexivity.
+  - (* BWeakenR *) apply IHn; auto.
+  - (* BAssume *) destruct W as [Ho W]. pose proof (IHn W sigma sigma' S S' bs) as H.
+    destruct o; [rewrite (Ho eq_refl) in H; exact H|].
+    clear - H. induction H; constructor; auto. eapply equiv_perm. eassumption.
 Qed.
 
 (* the arrival oracle that changes nothing gives back the specification *)
